@@ -5,10 +5,10 @@ UNIT = dict(
     prelude=["worker_env.rs"],
     spec=["spec.rs"],
     rules=dict(
-        env_methods=["is_closed", "get", "elapsed", "check_event", "send"],
+        env_methods=["is_closed", "get", "elapsed", "check_event", "send", "try_send"],
         env_paths=["Instant::now", "timeout"],
         question=True,
-        subst=[("vec![]", "Vec::new()")],
+        subst=[("vec![]", "Vec::new()"), ("mpsc::error::TrySendError::", "TrySendError::"), ("mpsc::error::SendError(", "SendError(")],
     ),
     extract=[
         dict(id="Priority", kind="type", src="crates/events/src/event.rs", name="Priority", structural=True),
